@@ -68,6 +68,13 @@ def run(prop, tier, family_programs=()):
         if prop == "C10":
             rep.count_query("sat" if not any(p[0] == "c10:ill-sorted" for p in r["problems"]) else "unsat")
     if prop == "C11":
+        from . import c11_shim
+        nshim = c11_shim.run_all(rep)
+        rep.coverage["shim_metadata"] = dict(
+            queries=nshim, buffer_bytes=c11_shim.N,
+            explanation="the REAL RZILInstruction.__init__ (needs_hi: re.search, needs_pkt: substring test) and "
+            "SubRoutine.check_for_bundle_usage run on a symbolic code string shaped like an emitted body (starts with a newline, ends "
+            "with ';'); for every outcome of their tests z3 decides: identifier token hi/pkt occurs => flag true / prologue declares it")
         for g, ks in getters.items():
             if len(ks) > 1:
                 rep.add(f"getter:{g}", "violation", "c11:getter-unique", f"getter name {g} used by {ks}")
